@@ -300,7 +300,11 @@ class Session:
         self.cmd = dict(DEFAULT_CMAP)
         if case.get("cmap"):
             self.cmd.update(EXTRA_CMAP)
-        self.root = self.world.build(case["tree"])
+        try:
+            self.root = self.guard("build", self.world.build, case["tree"])
+        except Crash:
+            self.root = None
+            self.cut = "crash"
 
     # ------------------------------------------------------------ reporting
     def v(self, sig, msg):
@@ -330,6 +334,17 @@ class Session:
             if any(c is node for c in n.children()):
                 return n
         return None
+
+    def under_list(self):
+        out = set()
+        st = [(self.root, False)]
+        while st:
+            n, inside = st.pop()
+            inside = inside or n.kind == "list"
+            if inside and n.kind != "leaf":
+                out.add(n.cid)
+            st.extend((c, inside) for c in n.children())
+        return out
 
     def chain(self):
         out = [self.root]
@@ -595,9 +610,10 @@ class Session:
         self.size = SIZES[si % len(SIZES)]
         self.log.clear()
         canv = self.guard("render", self.root.w.render, self.size, True)
+        self.screen_canvas = canv  # the display keeps the last canvas alive; CanvasCache entries live as long as it does
         ch = self.chain()
         onpath = {ch[-1].sid} if ch[-1].kind == "leaf" else set()
-        _seen, focused = canvas_leaves(canv)
+        _seen, focused = self.guard("canvas-content", canvas_leaves, canv)
         self.c("clause:render_focus_canvas")
         self.c("leaves_drawn", len(_seen))
         self.c("leaves_drawn_focused", len(focused))
@@ -655,8 +671,15 @@ class Session:
             self.c("clause:key_unmapped_unchanged")
             if res != key:
                 self.v("C08|keypress|unhandled-unmapped-key-swallowed", f"nobody handles {key!r} but keypress returned {res!r}; path {self.before_chain}")
-            if not self.snap_eq(before, after):
-                self.v("C08|keypress|unhandled-unmapped-key-moved-focus", f"{key!r}: focus state {before} -> {after}")
+            # a ListBox may complete a deferred focus change (initial "first selectable", set_focus_pending) on any key
+            # and position the cursor inside its item via move_cursor_to_coords: ListBoxes and their descendants are exempt
+            ul = self.under_list()
+            b2 = {k: v[:1] for k, v in before.items() if k not in ul}
+            a2 = {k: v[:1] for k, v in after.items() if k not in ul}
+            if {k: v for k, v in before.items() if k in ul and v[:2] != after.get(k, (None, None))[:2]}:
+                self.c("key_listbox_deferred_focus_moved")
+            if b2 != a2:
+                self.v("C08|keypress|unhandled-unmapped-key-moved-focus", f"{key!r}: focus positions {b2} -> {a2}")
         cmd = self.cmd.get(key)
         if cmd in ARROWS and not handled:
             self.c("arrow_keys_judged")
@@ -814,7 +837,7 @@ class Session:
             return
         rl = n.base.body if n.kind == "list" else n.base.contents
         L = len(n.ch)
-        build = self.world.build
+        build = lambda r: self.guard("build", self.world.build, r)  # noqa: E731
 
         def items(specs):
             nodes = [build(r) for r, _o in specs]
@@ -903,7 +926,7 @@ class Session:
                 self.guard("mutate", setattr, b, part, None)
             n.parts[part] = None
             return self.after_mutation(n, f"remove-{part}")
-        child = self.world.build(rec)
+        child = self.guard("build", self.world.build, rec)
         if how == "contents":
             self.guard("mutate", b.contents.__setitem__, part, (child.w, None))
         else:
@@ -917,7 +940,7 @@ class Session:
             self.c("op_skipped_detached")
             return
         b = n.base
-        child = self.world.build(rec)
+        child = self.guard("build", self.world.build, rec)
         if how == "item":
             opts = b.contents[which][1]
             self.guard("mutate", b.contents.__setitem__, which, (child.w, opts))
@@ -1020,6 +1043,8 @@ def run_case(ctx, case, stop_after=None):
             for k, c in EXTRA_CMAP.items():
                 env.u.command_map[k] = "cursor " + c
         s = Session(ctx, case)
+        if s.root is None:
+            return s
         s.log.on_key = s.leaf_offer
         with warnings.catch_warnings():
             warnings.simplefilter("ignore")
@@ -1163,6 +1188,8 @@ def gen_history(ctx, rng, nops):
             for k, c in EXTRA_CMAP.items():
                 env.u.command_map[k] = "cursor " + c
         s = Session(ctx, case)
+        if s.root is None:
+            return case, s
         s.log.on_key = s.leaf_offer
         with warnings.catch_warnings():
             warnings.simplefilter("ignore")
